@@ -223,7 +223,8 @@ func (m *ProtoProducerMessage) FormatMessageReflectCustom(ext, quotes, sep, sign
 		if !fieldValue.IsValid() {
 			if unkField, ok := unkMap[s]; ok {
 				fieldValue = reflect.ValueOf(unkField)
-			} else if !okRenderer { // not a virtual field
+			} else if fieldNameMap, declared := m.formatter.Remap(s); !okRenderer || (declared && fieldNameMap == "") {
+				// neither a virtual field nor a custom protobuf field this flow carries
 				continue
 			}
 		}
